@@ -623,10 +623,14 @@ class ChunkStore:
             Dask array of objects indicating success of transfer of each chunk
             (None indicates success, otherwise there is an exception object)
         """
+        # The task names have to be unique per store and source array. Dask merges
+        # the graphs of several puts computed together by task name, and puts with
+        # clashing names are silently dropped while still reporting success.
+        token = da.core.tokenize(id(self), array.name)
         return da.map_blocks(
             _put_map_blocks,
             array,
-            name=f'store-{array_name}-{offset}',
+            name=f'store-{array_name}-{offset}-{token}',
             dtype=object,
             chunks=array.ndim * (1,),
             meta=np.empty(shape=(0,) * array.ndim, dtype=object),
